@@ -37,7 +37,7 @@ claim("C09", "other",
 
 claim("C14", "other",
       "Structural clauses of the progress reports: the depth limit only bounds the iteration range and is never compared with the ply counter; one info line per iteration with the loop variable, guarded by both abort tests, after that iteration's search; PV moves pass is_legal_move on the position they are played in and the scratch board is restored; score and move are written together.",
-      "textual UCI syntax and mate-distance arithmetic are not decided.",
+      "printed moves (Display of Ply = to_notation, square names for all 64 squares, promotion letters) and every shape of the info line (all combinations of optional parts, against the UCI grammar) are decided by per-case constant propagation; mate-distance arithmetic is not decided. Rests on, and re-decides, the legality filter (C01.filter/probe).",
       "static analysis: dataflow of the depth limit + dominance / must-pass-through over rustc MIR", "DESIGN.md section 3 C14")
 
 
@@ -60,7 +60,7 @@ claim("C04", "other",
 
 claim("C17", "proof",
       "Every Evaluator::evaluate implementation is summarised from MIR as contributions (kind, side, coefficient, sign); the obligations (added table == subtracted table as multisets; added terms on current_turn, subtracted on current_turn.opposite(); Color::opposite an involution; accumulator starts at 0 with no other update and no other board read; get_piece_count uses the same (kind, colour) -> bitboard bijection as add_piece/remove_piece) give eval(p) = sum_K v_K (n(K,mover) - n(K,opponent)), hence both symmetries for all positions.",
-      "assumes no i16 saturation (legal material <= 10300) and that the bitboards hold what add_piece/remove_piece put there.",
+      "assumes no i16 saturation (legal material <= 10300); that the bitboards hold the real position under make/unmake is re-decided here (C03 revocation/placement and C02 inverse rules, reported as C17:uses-<ID>.<rule>).",
       "static analysis: symbolic summarisation of the evaluator + table equality over rustc MIR", "DESIGN.md section 3 C17")
 
 
@@ -88,7 +88,7 @@ claim("C05", "other",
 
 claim("C06", "other",
       "Magic constants validated completely against an independent geometric oracle (all 128 entries, all 107,648 blocker subsets: index width, row bound, no destructive collision), plus structural rules tying them to the code: reader and writer compute the same index over the same tables, masks drop exactly the far edge, the slow ray walk blocks each direction with the right scan, leaper initialisers normalise to exactly the rule steps with exactly the wrapping files masked, queen = rook | bishop, Kind dispatch and all_pieces occupancy. Exhaustive over squares and occupancies for the table scheme, which sampled slider tests cannot be.",
-      "conditional on rays[sq][d] being the geometric ray and get_blockers_from_index enumerating the subsets of its mask (value-level loops, not decided).",
+      "the ray table and the leaper tables are folded from their initialiser expressions for all 64 squares and compared with the oracle; get_blockers_from_index is decided structurally (subset-enum).",
       "static analysis: constants extracted from the type-checked program vs geometric oracle + symbolic normalisation of initialiser expressions", "DESIGN.md section 3 C06")
 
 
@@ -100,11 +100,11 @@ claim("C07", "other",
 
 claim("C08", "other",
       "Structural clauses of `position`: a scratch board built from the start position or from_fen and never from the session board; a single commit `self.board = scratch` after the move loop, on every Ok path and no Err path, with a rejected move leading to an Err that bypasses it; exact-equality lookup of each token among the legal moves and the matched move played on the scratch board for all tokens in order; {start}{dest}+q/r/b/n notation; FEN = tokens 1..7, moves after the `moves` keyword; error propagation, ucinewgame, and go searching the session board. Holds for every move list and command order because it holds for every path.",
-      "the legal-move list (C01) and the move application (C03) are decided elsewhere / not here.",
+      "the clauses it rests on are re-decided here and reported as C08:uses-<ID>.<rule>: the FEN loader (C07 rules), the legality filter (C01.filter/probe) and the move application (C03 rules).",
       "static analysis: who-may-write + dominance + symbolic slices + token-slice constraints over rustc MIR", "DESIGN.md section 3 C08")
 
 
 claim("C01", "other",
       "FIDE-exactness of the generated set for all positions is value-level and NOT decided. Decided are the structural clauses behind the rare-combination failures the property names: retain-by-is_legal_move filter; the probe testing the mover's king between make and unmake; check/attacker mirror tables; castling = rights && empty path && unattacked path for the same kind, refused on the wrong turn; the eight castling masks equal the FIDE squares (b1/b8 may be attacked) with Black = White << 56; the four castling moves and both rook tables; pawn direction/rank table with its mirror, double push, two guarded en-passant captures, four promotions on the back rank; Kind dispatch; capture annotation; full 0..64 square loops.",
-      "pseudo-legal set exactness, pins/evasions by value, duplicates and mate/stalemate recognition are not decided; attack tables are C06.",
+      "pseudo-legal set exactness, pins/evasions by value, duplicates and mate/stalemate recognition are not decided. The check also re-decides what these clauses rest on: the attack tables (C06 rules), make/unmake restoring the position around the probe (C02 rules) and the bookkeeping later generation depends on (C03 rules), reported as C01:uses-<ID>.<rule>.",
       "static analysis: decision-table extraction + constants vs FIDE oracle + dominance over rustc MIR", "DESIGN.md section 3 C01")
